@@ -211,6 +211,27 @@ V = [
      "two-output: L row origin mismatch"),
     ("C17", "F", "w5/R6 + |H| + lambda", ("patch", "c17_w5_R6_fft_helper.diff", QS), "denom = (np.abs(H_hat) ** 2) + lam",
      "denom = np.abs(H_hat) + lam", "C17.D2.fft"),
+    # ------------------------------------------------------------------ third batch: w7 refactors (vectorised BCCB builders, LU fast path)
+    ("C17", "S", "refactor w7/R3: dense BCCB by fancy indexing, CSR triplets by broadcast index arithmetic (np.nonzero of psf != 0)",
+     ("patch", "c17_w7_R3_vectorised_bccb.diff", APP), None, None, None),
+    ("C07", "S", "refactor w7/R1: vectorised sub-column scaling, rank-one update skipped when all multipliers are exactly zero",
+     ("patch", "c07_w7_R1_lu.diff", LU), None, None, None),
+    ("C17", "F", "w7/R3 + dense builder gathers base[(i - r)] (correlation)", ("patch", "c17_w7_R3_vectorised_bccb.diff", APP), "row_src = (r_idx[:, None] - r_idx[None, :]) % H",
+     "row_src = (r_idx[None, :] - r_idx[:, None]) % H", "_build_bccb_matrix"),
+    ("C17", "F", "w7/R3 + dense builder reshaped with (i, j) and (r, c) exchanged", ("patch", "c17_w7_R3_vectorised_bccb.diff", APP),
+     "A4 = base[row_src[:, None, :, None], col_src[None, :, None, :]]", "A4 = base[row_src.T[:, None, :, None], col_src[None, :, None, :]]",
+     "_build_bccb_matrix"),
+    ("C17", "F", "w7/R3 + CSR offsets added instead of subtracted (correlation)", ("patch", "c17_w7_R3_vectorised_bccb.diff", APP), "jj = (np.arange(W)[:, None] - (dv[None, :] - cW)) % W",
+     "jj = (np.arange(W)[:, None] + (dv[None, :] - cW)) % W", "_build_bccb_csr"),
+    ("C17", "F", "w7/R3 + CSR column index uses H as the row stride", ("patch", "c17_w7_R3_vectorised_bccb.diff", APP), "cols = (ii[:, None, :] * W + jj[None, :, :]).reshape(-1)",
+     "cols = (ii[:, None, :] * H + jj[None, :, :]).reshape(-1)", "_build_bccb_csr"),
+    ("C17", "F", "w7/R3 + weights tiled in the wrong order (repeat instead of tile)", ("patch", "c17_w7_R3_vectorised_bccb.diff", APP), "data = np.tile(weights, N)", "data = np.repeat(weights, N)",
+     "_build_bccb_csr"),
+    ("C17", "S", "w7/R3 + rows via broadcasting instead of np.repeat", ("patch", "c17_w7_R3_vectorised_bccb.diff", APP), "rows = np.repeat(np.arange(N), n_taps)",
+     "rows = (np.arange(N)[:, None] + np.zeros(n_taps, dtype=np.int64)[None, :]).reshape(-1)", None),
+    ("C07", "F", "w7/R1 + fast path taken when the multipliers are NOT all zero", ("patch", "c07_w7_R1_lu.diff", LU),
+     "multipliers_zero = not np.any(quaternion.as_float_array(col_vector))", "multipliers_zero = bool(np.any(quaternion.as_float_array(col_vector)))",
+     "rule=C07."),
 ]
 
 
